@@ -36,6 +36,7 @@ import (
 	"google.golang.org/grpc/codes"
 	"google.golang.org/grpc/status"
 	"google.golang.org/protobuf/encoding/prototext"
+	"google.golang.org/protobuf/proto"
 )
 
 // ManifestObjectName is the objectName for the CA's key manifest file.
@@ -150,10 +151,12 @@ func (ca *CertificateAuthority) Finalize(ctx context.Context, m styp.Certificate
 	if !ok {
 		return fmt.Errorf("expected gcsca mutation object, got %v", m)
 	}
-	manifest, err := ca.getManifest(ctx)
+	cached, err := ca.getManifest(ctx)
 	if err != nil {
 		return err
 	}
+	// Work on a copy: the cache must keep describing what is in storage if anything below fails.
+	manifest := proto.Clone(cached).(*cpb.GCECertificateManifest)
 	var manifestChanges bool
 	if mut.primaryRootVersion != nil && manifest.PrimaryRootKeyVersionName != *mut.primaryRootVersion {
 		manifestChanges = true
@@ -189,9 +192,10 @@ func (ca *CertificateAuthority) Finalize(ctx context.Context, m styp.Certificate
 		}
 	}
 	if manifestChanges {
-		if err := ca.writeManifest(ctx); err != nil {
+		if err := ca.writeManifest(ctx, manifest); err != nil {
 			return err
 		}
+		ca.manifest = manifest
 	}
 	if len(names) > 0 && !output.AllowOverwrite(ctx) && !output.AllowRecoverableError(ctx) {
 		return fmt.Errorf("--overwrite=false disallowed overwriting objects %v", names)
@@ -264,8 +268,8 @@ func (ca *CertificateAuthority) readManifest(ctx context.Context) (*cpb.GCECerti
 
 // writeManifest writes the current manifest state to the expected manifest object name in the
 // staging bucket.
-func (ca *CertificateAuthority) writeManifest(ctx context.Context) error {
-	manifestBytes, err := prototext.MarshalOptions{Multiline: true}.Marshal(ca.manifest)
+func (ca *CertificateAuthority) writeManifest(ctx context.Context, manifest *cpb.GCECertificateManifest) error {
+	manifestBytes, err := prototext.MarshalOptions{Multiline: true}.Marshal(manifest)
 	if err != nil {
 		return fmt.Errorf("could not marshal updated manifest: %v", err)
 	}
